@@ -224,6 +224,8 @@ func runC11(c *Ctx, tier string) {
 	runRecursionDepthBounded(c, "C11-D1")
 	runZeekTypesFillable(c, "C11-Z1")
 	runEnumIndexBounded(c, "C11-E1")
+	runStringDecoderCursor(c, "C11-S2")
+	runReaderSanityTests(c, "C11-V2")
 }
 
 func init() {
